@@ -174,6 +174,7 @@ func cmdCheck() int {
 		havocked      = map[string]bool{}
 		marks         = map[string]int{}
 		assumedPre    = map[string]string{}
+		noImplicit    = map[string]int{}
 		inlined       = map[string]bool{}
 		effFree       = map[string]bool{}
 		axioms        = map[string]bool{}
@@ -227,6 +228,9 @@ func cmdCheck() int {
 				axioms[a] = true
 			}
 			assumeCount += r.enc.assumes
+			if r.enc.skippedImplicit > 0 {
+				noImplicit[shortFunc(r.spec.Name)] = r.enc.skippedImplicit
+			}
 			loopsDecr = append(loopsDecr, r.enc.loopsDecr...)
 			loopsNoDecr = append(loopsNoDecr, r.enc.loopsNoDecr...)
 		}
@@ -292,11 +296,14 @@ func cmdCheck() int {
 				viols = append(viols, violation{Obligation: o.Name, Reason: "refuted: " + o.src(), Replay: rp.path, NoInput: !rp.failedOnReal})
 				continue
 			}
-			if baseline == nil || baseline[o.Name] {
-				rp := writeReplay(replayDir, prop, r, o)
-				viols = append(viols, violation{Obligation: o.Name, Reason: "no longer discharged (" + o.Result + "): " + o.src(), Replay: rp.path, NoInput: true})
-				continue
+			// every obligation generated for a function under contract must discharge: an undecided one is reported
+			// (it either discharged on the unchanged tree and no longer does, or it is a new obligation of changed code)
+			rp := writeReplay(replayDir, prop, r, o)
+			why := "not discharged (" + o.Result + "): " + o.src()
+			if baseline != nil && !baseline[o.Name] {
+				why = "new obligation of changed code, not discharged (" + o.Result + "): " + o.src()
 			}
+			viols = append(viols, violation{Obligation: o.Name, Reason: why, Replay: rp.path, NoInput: true})
 			undecided = append(undecided, o.Name)
 		}
 	}
@@ -371,6 +378,7 @@ func cmdCheck() int {
 		"callees_inlined":          keysOf(inlined),
 		"typestate_marks_assumed":  marks,
 		"callee_preconditions_assumed": assumedPre,
+		"functions_without_implicit_panic_obligations": noImplicit,
 		"callees_effectfree":       keysOf(effFree),
 		"axioms":                   keysOf(axioms),
 		"assume_count":             assumeCount,
